@@ -1,2 +1,5 @@
 pub mod bits;
+pub mod merkle;
+pub mod sha;
 pub mod tyval;
+pub mod unify;
